@@ -21,7 +21,8 @@ Functions under contract (real text of /repo/src/read/{rnglists,loclists,addr,st
   indexed tables (carrier 3)
     DebugAddr::get_address, DebugStrOffsets::get_str_offset, RangeLists::get_offset, LocationLists::get_offset
         result == entry read at base + index * entry_size with MATHEMATICAL multiplication (`tab_at` in specs/lists.rs)
-    RangeLists::raw_ranges, LocationLists::{raw_locations, raw_locations_dwo}   section / format selection by version
+    RangeLists::{ranges, raw_ranges}, LocationLists::{locations, locations_dwo, raw_locations, raw_locations_dwo}
+        section / format selection by version; iterator context (base address, address table, addr_base)
     AddrHeader::{parse,offset,length,encoding}, AddrHeaderIter::next, AddrEntryIter::next
 
 FINDING F-lists-1 (= DESIGN F4), reported on the pinned tree as 6 failed overflow obligations (exit 1):
@@ -31,7 +32,7 @@ FINDING F-lists-1 (= DESIGN F4), reported on the pinned tree as 6 failed overflo
     batch exits 0 (every postcondition above is then proved) and gimli's own tests still pass.
 
 Assumed (TRUSTED): only core's ledger (verif_unreachable, Result::and_then, reader_clone = "a cloned reader has the same
-view"; `section.clone()` is rewritten to reader_clone by R-CLONE, logged).  Logged rewrites: R-CLONE (10 sites); R-CTORFN
+view"; `section.clone()` is rewritten to reader_clone, `debug_addr.clone()` to the verified model debugaddr_clone, by R-CLONE, logged).  Logged rewrites: R-CLONE (10 sites); R-CTORFN
 (`.map(DebugStrOffset)` -> `.map(|x| DebugStrOffset(x))`: Verus has no constructors as function values); R-VIS
 (`pub(crate) trait ReaderAddress` -> `pub trait`, works around a Verus panic, see widen_reader_address).  Inserted
 closure postconditions (`|x| -> (o: T) ensures .. { .. }`) and `hide(..)` directives are insert-only text.
@@ -40,9 +41,8 @@ Precondition (not from bytes): the resolving iterators require valid_address_siz
 `Encoding` with another address size by hand makes `u64::min_tombstone` shift out of range (API misuse, canary-guarded).
 AddrHeaderIter::next requires offset + remaining input <= usize::MAX (true when started by DebugAddr::headers).
 
-Not decided here: carrier 4 (Dwarf::{ranges_offset_from_raw, attr_ranges_offset, attr_locations_offset, die_ranges},
-RangeIter, unit_ranges -> DESIGN F5 is NOT covered by an obligation of this batch); RangeLists::ranges /
-LocationLists::locations(_dwo) (one-line constructors over `DebugAddr::clone`); DebugAddr::headers, AddrHeader::entries;
+Not decided here: carrier 4 lives in batch `dwarf_ranges` (built on this populate()); DebugAddr::headers,
+AddrHeader::entries;
 lists.rs parse_header / *Base::default_for_encoding_and_file; completeness "in-bounds operands ==> Ok" for address
 operands (core's read_address contract has no `Err <==> too short` clause); the functional relation of the resolving
 `next` to the whole list (it is the composition of raw `next` and `convert_raw`, both fully specified; `next` itself
@@ -325,7 +325,7 @@ def populate(ctx, sk):
 
     # ---- read::op (only the Expression newtype: location descriptions are handed out as reader windows)
     sk.module('read::op', 'use crate::read::Reader;')
-    sk.add('read::op', op.item(r'^pub struct Expression<').clean(rejrec=['R']))
+    sk.add('read::op', op.item(r'^pub struct Expression<').clean(offset=False, rejrec=['R']))   # generic in R::Offset (as in batches attrs / units)
 
 
     # ---- read::addr  (address table: DW_FORM_addrx, DW_RLE_*x, DW_LLE_*x, DW_OP_addrx)
@@ -346,6 +346,13 @@ use crate::vspec::*;""")
     dai.splice('get_address', ret='res', ensures=table_lookup('self.sec()', 'address_size as nat', 'a as nat', 'a', ['C08:indexed-address', 'C17:indexed-address'])
                + ['[C08:indexed-address-size] !valid_address_size(address_size) ==> res is Err'])
     sk.add(A, dai)
+    # R-CLONE target for `debug_addr.clone()` (derive(Clone) of a generic struct has no spec in Verus): a VERIFIED model of
+    # what the derive generates; it rests only on reader_clone
+    sk.add(A, '''
+pub fn debugaddr_clone<R: Reader<Offset = usize>>(x: &DebugAddr<R>) -> (res: DebugAddr<R>)
+    ensures res.sec() == x.sec()
+{ DebugAddr { section: reader_clone(&x.section) } }
+''', label='debugaddr_clone', owners=['C01'])
 
     # .debug_addr header / entry iterators (C01 iterator protocol, C17 section plumbing)
     sk.add(A, adr.item(r'^pub struct AddrHeaderIter<').clean(rejrec=['R']))
@@ -423,6 +430,7 @@ use crate::vspec::*;""")
 use crate::constants;
 use crate::read::{DebugAddr, Error, Reader, ReaderAddress, ReaderOffset, Result};
 use crate::read::reader_clone;
+use crate::read::addr::debugaddr_clone;
 use crate::vspec::*;''')
     M = 'read::rnglists'
     sk.add(M, rng.item(r'^enum RangeListsFormat').clean())
@@ -470,7 +478,8 @@ use crate::vspec::*;''')
     for h in [r'^pub struct DebugRanges<', r'^pub struct DebugRngLists<', r'^pub struct RangeLists<']:
         sk.add(M, rng.item(h).clean())
     rls = rng.item(r'^impl<R: Reader> RangeLists<R>', label='RangeLists')
-    rls.keep_only(['raw_ranges', 'get_offset'])
+    rls.keep_only(['ranges', 'raw_ranges', 'get_offset'])
+    rls.custom('R-CLONE', 'debug_addr.clone()', 'debugaddr_clone(debug_addr)')
     rls.custom('R-CLONE', 'self.debug_ranges.section.clone()', 'reader_clone(&self.debug_ranges.section)')
     rls.custom('R-CLONE', 'self.debug_rnglists.section.clone()', 'reader_clone(&self.debug_rnglists.section)', count=2)
     rls.clean()
@@ -481,6 +490,10 @@ use crate::vspec::*;''')
     rls.splice('raw_ranges', ret='res', ensures=[
         '[C08:list-select] res matches Ok(it) ==> it.enc() == unit_encoding && it.coded() == (unit_encoding.version >= 5) && '
         'adv(if unit_encoding.version >= 5 { self.rnglists_sec() } else { self.ranges_sec() }, it.inp(), offset.0 as nat)'])
+    rls.splice('ranges', ret='res', ensures=[
+        '[C08:list-select] res matches Ok(it) ==> it.enc() == unit_encoding && it.coded() == (unit_encoding.version >= 5) && '
+        'adv(if unit_encoding.version >= 5 { self.rnglists_sec() } else { self.ranges_sec() }, it.inp(), offset.0 as nat)',
+        '[C08:list-context] res matches Ok(it) ==> it.base() == base_address && it.tab() == debug_addr.sec() && it.tbase() == debug_addr_base.0 as nat'])
     rls.splice('get_offset', ret='res', ensures=table_lookup('self.rnglists_sec()', 'word_size(unit_encoding.format)', 'o.0 as nat', 'o', ['C08:offset-table'], plus_base=True))
     sk.add(M, rls)
 
@@ -488,6 +501,7 @@ use crate::vspec::*;''')
     sk.module('read::loclists', '''use crate::common::{DebugAddrBase, DebugAddrIndex, DebugLocListsBase, DebugLocListsIndex, DwarfFileType, Encoding, LocationListsOffset};
 use crate::constants;
 use crate::read::{DebugAddr, Error, Expression, Range, RawRange, Reader, ReaderAddress, ReaderOffset, Result};
+use crate::read::addr::debugaddr_clone;
 use crate::read::reader_clone;
 use crate::vspec::*;''')
     L = 'read::loclists'
@@ -523,7 +537,8 @@ use crate::vspec::*;''')
     for h in [r'^pub struct DebugLoc<', r'^pub struct DebugLocLists<', r'^pub struct LocationLists<']:
         sk.add(L, loc.item(h).clean())
     lls = loc.item(r'^impl<R: Reader> LocationLists<R>', label='LocationLists')
-    lls.keep_only(['raw_locations', 'raw_locations_dwo', 'get_offset'])
+    lls.keep_only(['locations', 'locations_dwo', 'raw_locations', 'raw_locations_dwo', 'get_offset'])
+    lls.custom('R-CLONE', 'debug_addr.clone()', 'debugaddr_clone(debug_addr)', count=2)
     lls.custom('R-CLONE', 'self.debug_loc.section.clone()', 'reader_clone(&self.debug_loc.section)', count=2)
     lls.custom('R-CLONE', 'self.debug_loclists.section.clone()', 'reader_clone(&self.debug_loclists.section)', count=3)
     lls.clean()
@@ -536,6 +551,13 @@ use crate::vspec::*;''')
         f'[C08:list-select] res matches Ok(it) ==> it.enc() == unit_encoding && it.coded() == (unit_encoding.version >= 5) && {SEL}'])
     lls.splice('raw_locations_dwo', ret='res', ensures=[
         f'[C08:list-select-dwo] res matches Ok(it) ==> it.enc() == unit_encoding && it.coded() && {SEL}'])
+    CTX = 'it.base() == base_address && it.tab() == debug_addr.sec() && it.tbase() == debug_addr_base.0 as nat'
+    lls.splice('locations', ret='res', ensures=[
+        f'[C08:list-select] res matches Ok(it) ==> it.enc() == unit_encoding && it.coded() == (unit_encoding.version >= 5) && {SEL}',
+        f'[C08:list-context] res matches Ok(it) ==> {CTX}'])
+    lls.splice('locations_dwo', ret='res', ensures=[
+        f'[C08:list-select-dwo] res matches Ok(it) ==> it.enc() == unit_encoding && it.coded() && {SEL}',
+        f'[C08:list-context] res matches Ok(it) ==> {CTX}'])
     lls.splice('get_offset', ret='res', ensures=table_lookup('self.loclists_sec()', 'word_size(unit_encoding.format)', 'o.0 as nat', 'o', ['C08:offset-table'], plus_base=True))
     sk.add(L, lls)
     return sk
